@@ -1,7 +1,7 @@
 (* C20 — lazily loaded (virtual) trees behave exactly like materialised trees.
    Property theorems only.  consistent src m : src is a root-keyed store of the materialised tree m.
    vrel v m : v is m with some subtrees replaced by virtual nodes carrying their roots. *)
-Require Import RM.Base RM.Gindex RM.Tree RM.TreeProofs RM.VirtualProofs.
+Require Import RM.Base RM.Gindex RM.Tree RM.TreeProofs RM.Types RM.ModelCodec RM.ModelMut RM.VirtualProofs RM.VirtualViews.
 
 Theorem C20_root : forall H src v m, vrel H src v m -> root H v = root H m.
 Proof. exact vrel_root. Qed.
@@ -55,3 +55,61 @@ Print Assumptions C20_set.
 Print Assumptions C20_virtual_root_node.
 Print Assumptions C20_memo.
 Print Assumptions C20_nonvacuous.
+
+(* ---- view level (VirtualViews.v).  vr v m: v is m with subtrees replaced by virtual nodes, m materialised.
+   sim R rv rm: the virtual side gives the SAME failure as the materialised side, or related successes.  Every view
+   operation of the model computes on the virtual tree what it computes on the materialised tree: the same data, the
+   same errors, and again related (equally rooted) backings, so operations compose into histories. ---- *)
+Theorem C20_view_start : forall H src m, consistent H src m -> vr H src (VirtN (root H m)) m.
+Proof. exact vr_start. Qed.
+
+Theorem C20_related_roots : forall H src v m, vr H src v m -> root H v = root H m.
+Proof. exact vr_same_root. Qed.
+
+Theorem C20_view_get : forall H src t v m i, vr H src v m -> sim (vr H src) (view_get H src t v i) (view_get H src t m i).
+Proof. exact vr_view_get. Qed.
+
+Theorem C20_view_set : forall H src t v m i x, vr H src v m -> novirt x ->
+  sim (vr H src) (view_set H src t v i x) (view_set H src t m i x).
+Proof. exact vr_view_set. Qed.
+
+Theorem C20_lengths : forall H src t v m, vr H src v m -> sim eq (view_len H src t v) (view_len H src t m).
+Proof. exact vr_view_len. Qed.
+
+Theorem C20_list_append : forall H src t v m x, vr H src v m -> novirt x ->
+  sim (vr H src) (list_append H src t v x) (list_append H src t m x).
+Proof. exact vr_list_append. Qed.
+
+Theorem C20_list_pop : forall H src t v m, vr H src v m -> sim (vr H src) (list_pop H src t v) (list_pop H src t m).
+Proof. exact vr_list_pop. Qed.
+
+Theorem C20_bits_get : forall H src t v m i, vr H src v m -> sim eq (bits_get H src t v i) (bits_get H src t m i).
+Proof. exact vr_bits_get. Qed.
+
+Theorem C20_bits_set : forall H src t v m i b, vr H src v m -> sim (vr H src) (bits_set H src t v i b) (bits_set H src t m i b).
+Proof. exact vr_bits_set. Qed.
+
+Theorem C20_bitlist_append : forall H src t v m b, vr H src v m ->
+  sim (vr H src) (bitlist_append H src t v b) (bitlist_append H src t m b).
+Proof. exact vr_bitlist_append. Qed.
+
+Theorem C20_bitlist_pop : forall H src t v m, vr H src v m -> sim (vr H src) (bitlist_pop H src t v) (bitlist_pop H src t m).
+Proof. exact vr_bitlist_pop. Qed.
+
+Theorem C20_union_value : forall H src t v m, vr H src v m ->
+  sim (fun a b => match a, b with None, None => True | Some (o, x), Some (o', y) => o = o' /\ vr H src x y | _, _ => False end)
+      (union_value H src t v) (union_value H src t m).
+Proof. exact vr_union_value. Qed.
+
+Print Assumptions C20_view_start.
+Print Assumptions C20_related_roots.
+Print Assumptions C20_view_get.
+Print Assumptions C20_view_set.
+Print Assumptions C20_lengths.
+Print Assumptions C20_list_append.
+Print Assumptions C20_list_pop.
+Print Assumptions C20_bits_get.
+Print Assumptions C20_bits_set.
+Print Assumptions C20_bitlist_append.
+Print Assumptions C20_bitlist_pop.
+Print Assumptions C20_union_value.
